@@ -4,6 +4,8 @@
    release); a [Panic] in the model is a Rust panic (= abort: panic = 'abort' in node/Cargo.toml). *)
 From Coq Require Import ZArith List.
 From EC Require Import Lib.Outcome Lib.U64 Model.NetInput Proofs.NetInputProofs.
+(* replica / certificate models of C04, C05, C16: referred to by qualified names only *)
+From EC Require Model.Msgs Model.Replica Proofs.QCProofs Proofs.TqcAssembly Proofs.ReplicaCaches.
 Import ListNotations.
 Open Scope Z_scope.
 
@@ -232,6 +234,36 @@ Theorem C10_u16_index_bounds : forall b0 b1, 0 <= b0 < 256 -> 0 <= b1 < 256 ->
   0 <= b0 + 256 * b1 <= 65535 /\ b0 + 256 * b1 < 65536 /\ 2 + (b0 + 256 * b1) <= 65537.
 Proof. exact u16_index_bounds. Qed.
 Print Assumptions C10_u16_index_bounds.
+
+(* ---- replica handlers on well-signed messages with arbitrary field values ------------------ *)
+
+(* A ReplicaCommit / ReplicaTimeout with any field values, offered to the replica model in any
+   state satisfying the cache invariant (all reachable states, Proofs/ReplicaCaches.v), can never
+   hit an unwrap / expect / index / assert / unreachable: the only panic possible is the
+   arithmetic overflow of view.next() in start_new_view, i.e. after a quorum certificate for view
+   u64::MAX has been assembled from verified votes (outside the fault bound). *)
+Theorem C10_replica_votes_total : forall cfg s m, ReplicaCaches.cache_inv cfg s ->
+  (exists c, Replica.m_msg m = Replica.MCommit c) \/ (exists t, Replica.m_msg m = Replica.MTimeout t) ->
+  forall p, ReplicaCaches.res_of (Replica.rstep cfg s (Replica.IMsg m)) = Panic p -> p = POverflow.
+Proof. exact ReplicaCaches.rstep_vote_panics. Qed.
+Print Assumptions C10_replica_votes_total.
+
+(* What on_proposal / on_new_view run on an unverified justification: verification never panics
+   for any field values (signer bitmaps of any length, any views); on a TimeoutQC satisfying the
+   assembly invariant high_vote / weight never panic; and the replica's own get_justification
+   never panics once a high certificate exists. *)
+Theorem C10_justification_handling_total :
+  (forall g e C j, is_panic (Msgs.justification_verify g e C j) = false) /\
+  (forall E g e C t, TqcAssembly.tqc_inv g e C t ->
+     is_panic (@Msgs.high_vote E C t) = false /\ is_panic (@Msgs.tqc_weight E C t) = false) /\
+  (forall s, Replica.r_high_cqc s <> None \/ Replica.r_high_tqc s <> None ->
+     forall p, Replica.get_justification s <> Panic p).
+Proof.
+  split; [exact QCProofs.justification_verify_no_panic|]. split.
+  - intros E g e C t H. split; [exact (TqcAssembly.high_vote_no_panic E g e C t H)|exact (TqcAssembly.tqc_weight_no_panic E g e C t H)].
+  - exact ReplicaCaches.get_justification_np.
+Qed.
+Print Assumptions C10_justification_handling_total.
 
 (* ---- the full statement, and what is proved of it ---------------------------------------- *)
 
